@@ -778,21 +778,31 @@ extern "C"
     int igc_fdprintf(int fd, const char *format, ...);
     int igc_vfdprintf(int fd, const char *format, va_list args);
 
-    int igc_fdputc(int c, int fd);
+    long igc_write(int fd, const void *buf, unsigned long n);
 }
-// environment of fdprintf.c: one character to a descriptor. Recorded, optionally failing.
+// Environment of fdprintf.c / fdputc.c: the write() they reach (directly or through the repository's fdputc) is
+// this device. It records what arrives on which descriptor and can fail from a given byte on (short write first,
+// then the error), so the check does not depend on how the library batches its output.
 static string g_fd_out;
 static int g_fd_seen = -1;
 static long g_fd_fail_at = -1; // index of the first character whose write fails
-static long g_fd_calls = 0;
-int igc_fdputc(int c, int fd)
+static long g_fd_calls = 0;    // bytes offered so far
+long igc_write(int fd, const void *buf, unsigned long n)
 {
     g_fd_seen = fd;
-    long k = g_fd_calls++;
-    if (g_fd_fail_at >= 0 && k >= g_fd_fail_at)
-        return -5;
-    g_fd_out.push_back((char)c);
-    return 1;
+    const char *p = (const char *)buf;
+    unsigned long done = 0;
+    for (; done < n; done++)
+    {
+        long k = g_fd_calls++;
+        if (g_fd_fail_at >= 0 && k >= g_fd_fail_at)
+        {
+            g_fd_calls--;
+            return done ? (long)done : -5;
+        }
+        g_fd_out.push_back(p[done]);
+    }
+    return (long)n;
 }
 // typed variadic calls of the entry points (c06_dispatch.cpp): 0 sprintf, 1 vsprintf, 2 fdprintf, 3 vfdprintf, 4 snprintf
 // fd: the descriptor handed to fdprintf / vfdprintf (every non-negative descriptor is valid: 0 is what open() returns
@@ -1118,8 +1128,8 @@ static void long_directive_counts_body()
 static void long_entries_body()
 {
     static const char *ENT[] = {"sprintf", "vsprintf", "fdprintf", "vfdprintf", "snprintf"};
-    int which = mc::choose(5), fi = mc::choose(6), li = mc::choose(3);
-    static const int LEN[3] = {300, 65536, 70000};
+    int which = mc::choose(5), fi = mc::choose(6), li = mc::choose(7);
+    static const int LEN[7] = {255, 256, 257, 300, 512, 65536, 70000};
     int n = LEN[li];
     string f;
     Args a;
